@@ -18,7 +18,14 @@ RULE = ("product explorer.  dense: every (shape, ordered set of disjoint equal-l
         "perturbation magnitude {2*prod|g|! (an integer step), 2^-30 (exactly representable, far below any "
         "plausible tolerance), 1 ulp (np.nextafter)}; the two small magnitudes exercise the symmetry test only "
         "(exactness of the test: bitwise different => not symmetric, details = true max difference), because "
-        "their averages are not exact} x "
+        "their averages are not exact; generic multiples of prod|g|!/2, whose averages are exact multiples of 1/2 "
+        "and in general NOT integers (float64 and int64 storage); small integers unit*{0..3} / unit*{-3..3} / "
+        "{0,1} in uint8 / int8 / bool storage (generic, and symmetric by orbit filling - no arithmetic), wherever "
+        "the storage holds the values exactly; bool data are symmetrised only when every orbit size is a power of "
+        "two (groups of <= 2 members: exact averages), otherwise only tested for symmetry} x "
+        "empty operands: every shape with a mode of extent 0 within the tier bound x every compatible group set x "
+        "storage {float64, int64, bool} (no cells: trivially symmetric; both versions must return the empty tensor "
+        "of that shape, answer True, give all-zero details) x "
         "{symmetrize new/old, issymmetric new/old x return_details}; oracle = explicit average / explicit "
         "invariance test over the product of the per-group permutation groups (mc/refmodel.py), compared "
         "bitwise (both versions are compared with the same exact reference, which also decides that they agree).  Kruskal: every (order, size, rank, weight sign pattern, factor family) ; oracle = "
@@ -26,8 +33,11 @@ RULE = ("product explorer.  dense: every (shape, ordered set of disjoint equal-l
         "Non-trivial: a group with >= 2 members of size >= 2 (dense) / a non-zero value (Kruskal).")
 ASSUMPTIONS = [
     "reference semantics in mc/refmodel.py (symmetrize, is_symmetric, kruskal) are correct",
-    "dense data are integers that are multiples of prod_g |g|!, so every average is exact in float64 and the "
-    "oracle is bitwise equality (the 2^-30 / 1-ulp perturbed inputs are never symmetrised; for them only "
+    "dense data are integers that are multiples of prod_g |g|! (or of prod_g |g|!/2: averages are multiples of "
+    "1/2), so every average is exact in float64 and the "
+    "oracle is bitwise equality; the storage dtype of the operand (float64, int64, int8, uint8, bool) holds the "
+    "data exactly and does not change the expected VALUE of any result (the dtype of the result is not asserted); "
+    "boolean tensors are in scope because the library's own comparison operators produce them (the 2^-30 / 1-ulp perturbed inputs are never symmetrised; for them only "
     "issymmetric is asserted, whose reference is a bitwise invariance test and an exact float subtraction)",
     "grps is passed the way the docstrings show it: None, a 1-D integer ndarray (one group) or a 2-D integer "
     "ndarray (one group per row, hence equal group lengths)",
@@ -36,21 +46,25 @@ ASSUMPTIONS = [
     "ktensor.issymmetric is the structural test its documentation describes (all factor matrices equal); "
     "'already symmetric' Kruskal inputs are those whose rank-one terms are each symmetric (factor columns "
     "equal up to scaling/sign)",
-    "non-cubical groups lie outside the quantifier: run, observed, never asserted",
+    "non-cubical groups lie outside the quantifier: run, observed, never asserted; so is shape (0,), which pyttb "
+    "defines as the order-0 empty tensor (ndims == 0: there is no mode to group)",
 ]
 BOUNDS = {
-    "quick": "dense: shapes of order 2-4 with sizes in {2,3} plus singleton-mode shapes of order <= 3; every "
+    "quick": "dense: shapes of order 2-4 with sizes in {2,3} plus singleton-mode shapes of order <= 3, plus the "
+             "empty shapes (>= 1 mode of extent 0) of order 2-3 with sizes in {0,2,3} and of order 4 with sizes in "
+             "{0,2}; storage float64/int64 (+ uint8/int8/bool for the small-integer families); every "
              "ordered selection of disjoint groups (group length 1..N, 1..N/len groups, unsorted members, both "
              "group orders), forms None/1-D/2-D; perturbations: every cell of a non-trivial orbit when <= 16 "
              "such cells else 4 spread cells, each at the 3 magnitudes {2*prod|g|!, 2^-30, 1 ulp}; Kruskal: order 2-4 x size 2-3 x rank 1-2 x weights in {2,-1}^R x "
              "5 factor families",
-    "thorough": "dense: adds order 5 with sizes in {2,3} (<= 108 cells) and order 6 size 2 (canonical group "
+    "thorough": "dense: adds order 5 with sizes in {2,3} (<= 108 cells), empty shapes of order 4 with sizes in "
+                "{0,2,3} and of order 5 with sizes in {0,2}, and order 6 size 2 (canonical group "
                 "sets + reversed members); perturbations: every cell when <= 81 else 12 spread cells, each at 3 magnitudes; Kruskal: "
                 "order 2-5 x size 2-3 x rank 1-3 x weights in {2,-1,0}^R (rank 3: {2,-1}^3) x 5 families",
 }
 CHUNK = 8
 
-DATA_ALL = ("generic", "const", "sym", "sym_pert")
+DATA_ALL = ("generic", "const", "sym", "sym_pert", "half", "small", "ssmall", "bits")
 # magnitude of the single-cell perturbation of a symmetric tensor: an integer step (averages stay exact), an exactly
 # representable tiny absolute step, and the smallest possible step (1 ulp).  The symmetry test is EXACT, so all three
 # make the tensor asymmetric.
@@ -102,8 +116,23 @@ def _dense_shapes(tier):
     sh += [s for s in space.shapes(3, 3, 9, min_order=1) if 1 in s]
     if tier == "thorough":
         sh += space.shapes(5, 3, 108, min_order=5, min_size=2)
+    sh += _empty_shapes(tier)
     sh = sorted(set(sh), key=lambda s: (len(s), prod(s), s))
     return sh
+
+
+def _empty_shapes(tier):
+    """Shapes with at least one mode of extent 0 (no cells: trivially symmetric, the operations must still work and
+    agree).  (0,) is excluded: pyttb defines it as THE empty tensor of order 0 (ndims == 0), which has no modes to group;
+    it is observed with the inadmissible cases."""
+    out = []
+    full_upto, max_order = ((4, 5) if tier == "thorough" else (3, 4))
+    for n in range(1, max_order + 1):
+        sizes = (0, 2, 3) if n <= full_upto else (0, 2)
+        for sh in itertools.product(sizes, repeat=n):
+            if 0 in sh and sh != (0,):
+                out.append(tuple(sh))
+    return out
 
 
 def gen_cases(tier, seed):
@@ -121,8 +150,10 @@ def gen_cases(tier, seed):
         for groups in canonical_group_sets(6):
             yield _dense_case(shape, groups, "2d", seed, 16, 6)
     # groups whose members differ in size: outside the quantifier (observed only)
+    # (and pyttb's order-0 empty tensor, shape (0,): no modes to group)
     for shape, groups in (((2, 3), [[0, 1]]), ((2, 3, 2), [[0, 1]]), ((3, 2, 2), [[1, 0, 2]]),
-                          ((2, 3, 3, 2), [[0, 1], [2, 3]]), ((2, 2, 3), [[0, 1], [1, 2]])):
+                          ((2, 3, 3, 2), [[0, 1], [2, 3]]), ((2, 2, 3), [[0, 1], [1, 2]]), ((0,), [[0]]),
+                          ((0, 2), [[0, 1]]), ((3, 0, 3), [[0, 1, 2]])):
         yield {"check": "noncubic", "shape": list(shape), "grps": groups, "vseed": seed}
     # Kruskal
     orders = (2, 3, 4, 5) if thorough else (2, 3, 4)
@@ -187,6 +218,53 @@ def _generic(shape, groups, vseed):
     return rm.arr(shape, [space.cell_value(l, vseed) * M for l in range(prod(shape))])
 
 
+def _unit(groups):
+    """Smallest step u such that integer multiples of u have averages that are multiples of 1/2 (exact in float64,
+    not integers in general): prod|g|!/2, or 1 when every group has one member."""
+    M = _mult(groups)
+    return M // 2 if M % 2 == 0 else M
+
+
+def _mix(j):
+    """Fixed integer scrambler (murmur3 finaliser): an irregular but deterministic small-value pattern."""
+    x = (j + 0x9E3779B9) & 0xFFFFFFFF
+    x ^= x >> 16
+    x = (x * 0x85EBCA6B) & 0xFFFFFFFF
+    x ^= x >> 13
+    x = (x * 0xC2B2AE35) & 0xFFFFFFFF
+    return x ^ (x >> 16)
+
+
+def _small(shape, groups, vseed, kind):
+    """Small integers (they fit every storage dtype): unit * s(l) with s in 0..3 ("small"), -3..3 ("ssmall"), or
+    s in {0, 1} without the unit ("bits", the value set of boolean storage)."""
+    u = 1.0 if kind == "bits" else float(_unit(groups))
+    vals = []
+    for l in range(prod(shape)):
+        c = space.cell_value(l, vseed)
+        j = (int(abs(c)) - 3) // 2
+        h = _mix(j)
+        sv = h % (2 if kind == "bits" else 4)
+        if kind == "ssmall" and c < 0:
+            sv = -sv
+        vals.append(u * sv)
+    return rm.arr(shape, vals)
+
+
+def orbit_fill(A, groups):
+    """Symmetric array without arithmetic: every cell takes the value of the representative of its orbit (the
+    subscripts sorted within each group)."""
+    B = A.copy()
+    for sub in rm.cells(A.shape):
+        r = list(sub)
+        for g in groups:
+            for i, v in zip(sorted(g), sorted(sub[i] for i in g)):
+                r[i] = v
+        B[sub] = A[tuple(r)]
+    assert rm.is_symmetric(B, groups)
+    return B
+
+
 def moved_cells(shape, groups):
     """F-order indices of the cells that lie in an orbit with more than one element."""
     out = []
@@ -209,6 +287,12 @@ def dense_data(shape, groups, data, pert, vseed, mag="big"):
     G = _generic(shape, groups, vseed)
     if data == "generic":
         return G
+    if data == "half":
+        # multiples of prod|g|!/2: every (partial) average is a multiple of 1/2 - exact, generally not an integer
+        return G * (float(_unit(groups)) / _mult(groups))
+    if data.split("_")[0] in ("small", "ssmall", "bits"):
+        S = _small(shape, groups, vseed, data.split("_")[0])
+        return orbit_fill(S, groups) if data.endswith("_sym") else S
     if data == "const":
         return np.full(shape, 7.0 * _mult(groups))
     if data == "sym":
@@ -243,13 +327,36 @@ def _garg(groups, form):
     return np.array(groups, dtype=int)
 
 
-def _mk(A, dtype="float"):
+STORES = ("float64", "int64", "int8", "uint8", "bool")
+
+
+def _store_of(dtype):
+    return {"float": "float64", "int": "int64"}.get(dtype, dtype)
+
+
+def fits(A, store):
+    """The storage dtype holds the values of A exactly."""
+    dt = np.dtype(_store_of(store))
+    if dt == np.float64:
+        return True
+    if dt == np.bool_:
+        return bool(np.all((A == 0) | (A == 1)))
+    if not np.array_equal(A, np.round(A)):
+        return False
+    ii = np.iinfo(dt)
+    return bool(A.size == 0 or (A.min() >= ii.min and A.max() <= ii.max))
+
+
+def _mk(A, dtype="float64"):
     import pyttb as ttb
 
-    if dtype == "int":
-        assert np.array_equal(A, np.round(A))
-        return ttb.tensor(np.asfortranarray(A.astype(np.int64)))
-    return ttb.tensor(np.asfortranarray(A.copy()))
+    store = _store_of(dtype)
+    if store == "float64":
+        return ttb.tensor(np.asfortranarray(A.copy()))
+    assert fits(A, store), f"harness: {store} does not hold the data exactly"
+    T = ttb.tensor(np.asfortranarray(A.astype(np.dtype(store))))
+    assert T.data.dtype == np.dtype(store), f"harness: holder dtype {T.data.dtype} instead of {store}"
+    return T
 
 
 def _tensor_data(R, shape):
@@ -293,7 +400,7 @@ def _sym_call(T, g, ver):
     return T.symmetrize(**kw)
 
 
-def _check_issym(p, ctx, A, groups, g, want, op, vprefix="", dtype="float"):
+def _check_issym(p, ctx, A, groups, g, want, op, vprefix="", dtype="float64"):
     """All four (version, return_details) configurations of issymmetric on data A."""
     n = A.ndim
     for vname, ver in VERSIONS:
@@ -336,32 +443,52 @@ def _check_issym(p, ctx, A, groups, g, want, op, vprefix="", dtype="float"):
 
 def _dense_variants(case):
     shape, groups = tuple(case["shape"]), case["grps"]
-    out = [("generic", None, "all", "big"), ("const", None, "all", "big"), ("sym", None, "all", "big"),
-           ("generic", None, "all:int", "big"), ("sym", None, "all:int", "big")]
+    F, I = "float64", "int64"
+    if prod(shape) == 0:
+        # no cells: every data family is the same (empty) array; what remains is the storage dtype
+        return [("generic", None, "all", "big", st) for st in (F, I, "bool")]
+    out = [("generic", None, "all", "big", F), ("const", None, "all", "big", F), ("sym", None, "all", "big", F),
+           ("generic", None, "all", "big", I), ("sym", None, "all", "big", I)]
     if len(groups) > 1:
         for j in range(len(groups)):
-            out.append((f"partial:{j}", None, "all", "big"))
+            out.append((f"partial:{j}", None, "all", "big", F))
     if len(groups[0]) >= 3:
-        out.append(("subsym:first", None, "all", "big"))
-        out.append(("subsym:last", None, "all", "big"))
+        out.append(("subsym:first", None, "all", "big", F))
+        out.append(("subsym:last", None, "all", "big", F))
     pc = pert_choices(shape, groups, case.get("pert_cap", 16), case.get("pert_spread", 4))
     for i, l in enumerate(pc):
-        out.append(("sym_pert", l, "all" if i == len(pc) // 2 else "issym", "big"))
+        out.append(("sym_pert", l, "all" if i == len(pc) // 2 else "issym", "big", F))
     # the same cells at the small magnitudes: symmetry test only (averages of such data are not exact)
     for mag in PERT_MAGS[1:]:
         for l in pc:
-            out.append(("sym_pert", l, "issym", mag))
+            out.append(("sym_pert", l, "issym", mag, F))
+    # averages that are exact but NOT integers (multiples of 1/2), in floating and in integer storage
+    if len(groups[0]) >= 2:
+        out.append(("half", None, "all", "big", F))
+        out.append(("half", None, "all", "big", I))
+    # narrow / unsigned / boolean storage, with data that fit: generic and symmetric.  Boolean data are 0/1, whose
+    # averages are exact only when every orbit size is a power of two (groups of <= 2 members); otherwise only the
+    # symmetry test is asserted for them.
+    M = _mult(groups)
+    pow2 = M & (M - 1) == 0
+    for fam, st in (("small", "uint8"), ("ssmall", "int8"), ("bits", "bool")):
+        ops = "all" if (st != "bool" or pow2) else "issym"
+        for suffix in ("", "_sym"):
+            if st == "bool" or 3 * _unit(groups) <= np.iinfo(np.dtype(st)).max:     # the values fit
+                out.append((fam + suffix, None, ops, "big", st))
     return out
 
 
 def _run_dense(case, ctx):
     if "data" in case:
-        variants = [(case["data"], case.get("pert"), case.get("ops", "all"), case.get("mag", "big"))]
+        ops = case.get("ops", "all")
+        store = case.get("store") or ("int64" if ops.endswith(":int") else "float64")
+        variants = [(case["data"], case.get("pert"), ops.split(":")[0], case.get("mag", "big"), store)]
     else:
         variants = _dense_variants(case)
-    for data, pert, ops, mag in variants:
-        sub = {k: v for k, v in case.items() if k not in ("data", "pert", "ops", "mag")}
-        sub.update(data=data, pert=pert, ops=ops, mag=mag)
+    for data, pert, ops, mag, store in variants:
+        sub = {k: v for k, v in case.items() if k not in ("data", "pert", "ops", "mag", "store")}
+        sub.update(data=data, pert=pert, ops=ops, mag=mag, store=store)
         _dense_one(sub, ctx)
 
 
@@ -376,9 +503,11 @@ def _dense_one(case, ctx):
     p = Probe(ctx, case)
     ctx.state()
     N, k = len(shape), len(groups[0])
-    nontrivial = k >= 2 and any(shape[i] >= 2 for gg in groups for i in gg)
+    nontrivial = k >= 2 and any(shape[i] >= 2 for gg in groups for i in gg) and A.size > 0
     if nontrivial:
         ctx.nontriv()
+    if A.size == 0:
+        ctx.flag("empty_operand")
     if not case["full"]:
         ctx.flag("proper_subgroup")
     if len(groups) > 1:
@@ -389,8 +518,9 @@ def _dense_one(case, ctx):
     ctx.flag("input_symmetric" if want_sym else "input_asymmetric")
 
     # the symmetry test on the input
-    dtype = "int" if case["ops"].endswith(":int") else "float"
-    if dtype == "int":
+    dtype = case.get("store", "float64")
+    ctx.flag("store_" + dtype)
+    if dtype != "float64":
         ctx.flag("integer_dtype")
     _check_issym(p, ctx, A, groups, g, want_sym, "tensor.issymmetric", dtype=dtype)
     if case["ops"] == "issym":
